@@ -3,7 +3,7 @@
 
    A text (&str) is the list of its code points, a printed literal the list of its ASCII codes, an
    SMT string a list of N ([goodw]: every element <= MAX_CHAR = 0x2FFFF).  [parse_smt_literal],
-   [display], [char_to_smt], [smt_char_as_string] are the model of the (repaired, D4 + D7) Rust
+   [smt_display], [char_to_smt], [smt_char_as_string] are the model of the (repaired, D4 + D7) Rust
    code in Literal.v; [None] would be a panic of the Rust code.
    [LitDenote] / [EscapeSeq] (LiteralProofs.v) are the SMT-LIB 2.6 reading of a literal body:
    backslash u d3 d2 d1 d0 and backslash u { d0 } ... backslash u { d4 d3 d2 d1 d0 } (value at
@@ -34,27 +34,27 @@ Proof. exact parse_total_good. Qed.
 Print Assumptions C08_parse_total_good.
 
 (* ---- printing: printable ASCII only *)
-Theorem C08_display_ascii : forall s, goodw s -> Forall (fun c => 32 <= c <= 126) (display s).
+Theorem C08_display_ascii : forall s, goodw s -> Forall (fun c => 32 <= c <= 126) (smt_display s).
 Proof. exact display_ascii. Qed.
 Print Assumptions C08_display_ascii.
 
 (* the printed form is a quote, one piece per character, a quote; the piece of the double-quote
    character is two double quotes and no other piece contains a double quote *)
 Theorem C08_display_quote : forall s, goodw s ->
-  exists pieces, display s = [34] ++ concat pieces ++ [34] /\
+  exists pieces, smt_display s = [34] ++ concat pieces ++ [34] /\
     Forall2 (fun x l => l = fmt_char x /\ (x = 34 -> l = [34; 34]) /\ (x <> 34 -> ~ In 34 l)) s pieces.
 Proof. exact display_quote. Qed.
 Print Assumptions C08_display_quote.
 
 (* reading the body of the printed form back (doubled quotes undone) yields the string *)
 Theorem C08_roundtrip : forall s, goodw s ->
-  parse_smt_literal (undouble (body (display s))) = Some s.
+  parse_smt_literal (lit_undouble (lit_body (smt_display s))) = Some s.
 Proof. exact roundtrip. Qed.
 Print Assumptions C08_roundtrip.
 
 (* distinct strings never print as the same literal *)
 Theorem C08_display_injective : forall s1 s2, goodw s1 -> goodw s2 ->
-  display s1 = display s2 -> s1 = s2.
+  smt_display s1 = smt_display s2 -> s1 = s2.
 Proof. exact display_injective. Qed.
 Print Assumptions C08_display_injective.
 
@@ -66,8 +66,8 @@ Proof. exact char_printers_ascii. Qed.
 Print Assumptions C08_char_printers_ascii.
 
 Theorem C08_char_roundtrip : forall x, x <= MAXC ->
-  parse_smt_literal (undouble (char_to_smt x)) = Some [x] /\
-  parse_smt_literal (undouble (smt_char_as_string x)) = Some [x].
+  parse_smt_literal (lit_undouble (char_to_smt x)) = Some [x] /\
+  parse_smt_literal (lit_undouble (smt_char_as_string x)) = Some [x].
 Proof. exact char_roundtrip. Qed.
 Print Assumptions C08_char_roundtrip.
 
@@ -87,11 +87,11 @@ Example C08_example :
   (* a malformed attempt does not hide a following escape: \u{A *)
   parse_smt_literal [92;117;123;92;117;48;48;52;49] = Some [92;117;123;65] /\
   (* printing: A, double quote, B; the control character 0, 0x80, 0x10000 *)
-  display [65;34;66] = [34;65;34;34;66;34] /\
-  display [0;128;65536] = [34; 92;117;123;48;48;125; 92;117;48;48;56;48; 92;117;123;49;48;48;48;48;125; 34] /\
+  smt_display [65;34;66] = [34;65;34;34;66;34] /\
+  smt_display [0;128;65536] = [34; 92;117;123;48;48;125; 92;117;48;48;56;48; 92;117;123;49;48;48;48;48;125; 34] /\
   (* the string of the six characters \u{41} prints its backslash as \u{5c} and reads back *)
-  display [92;117;123;52;49;125] = [34; 92;117;123;53;99;125; 117;123;52;49;125; 34] /\
-  parse_smt_literal (undouble (body (display [92;117;123;52;49;125]))) = Some [92;117;123;52;49;125] /\
+  smt_display [92;117;123;52;49;125] = [34; 92;117;123;53;99;125; 117;123;52;49;125; 34] /\
+  parse_smt_literal (lit_undouble (lit_body (smt_display [92;117;123;52;49;125]))) = Some [92;117;123;52;49;125] /\
   goodw [92;117;123;52;49;125] /\
   LitDenote [92;117;123;52;49;125] [65].
 Proof.
@@ -105,14 +105,14 @@ Qed.
 (* D4: the pinned printers copy the backslash, so the 6-character string \u{41} printed as the
    literal \u{41} (in quotes), which reads back as the string A: round trip and injectivity broken *)
 Example D4_prefix_witness :
-  display_pinned [92;117;123;52;49;125] = [34; 92;117;123;52;49;125; 34] /\
-  parse_smt_literal (undouble (body (display_pinned [92;117;123;52;49;125]))) = Some [65] /\
-  parse_smt_literal (undouble (body (display_pinned [92;117;123;52;49;125]))) <> Some [92;117;123;52;49;125] /\
+  smt_display_pinned [92;117;123;52;49;125] = [34; 92;117;123;52;49;125; 34] /\
+  parse_smt_literal (lit_undouble (lit_body (smt_display_pinned [92;117;123;52;49;125]))) = Some [65] /\
+  parse_smt_literal (lit_undouble (lit_body (smt_display_pinned [92;117;123;52;49;125]))) <> Some [92;117;123;52;49;125] /\
   (* two distinct strings whose pinned literals denote the same string; not so after the repair *)
-  parse_smt_literal (undouble (body (display_pinned [92;117;123;52;49;125]))) =
-    parse_smt_literal (undouble (body (display_pinned [65]))) /\
-  parse_smt_literal (undouble (body (display [92;117;123;52;49;125]))) <>
-    parse_smt_literal (undouble (body (display [65]))).
+  parse_smt_literal (lit_undouble (lit_body (smt_display_pinned [92;117;123;52;49;125]))) =
+    parse_smt_literal (lit_undouble (lit_body (smt_display_pinned [65]))) /\
+  parse_smt_literal (lit_undouble (lit_body (smt_display [92;117;123;52;49;125]))) <>
+    parse_smt_literal (lit_undouble (lit_body (smt_display [65]))).
 Proof.
   split; [vm_compute; reflexivity|]. split; [vm_compute; reflexivity|].
   split; [vm_compute; discriminate|]. split; [vm_compute; reflexivity | vm_compute; discriminate].
@@ -122,7 +122,7 @@ Qed.
    (U+30000, U+10FFFF): the result is not a good string; the repaired code yields 0xFFFD *)
 Example D7_prefix_witness :
   goodwb (from_str_pinned [196608]) = false /\ goodwb (from_char_pinned 1114111) = false /\
-  (exists q, consume_pinned new_automaton 196608 = Some q /\ so_far q = [196608]) /\
+  (exists q, pa_consume_pinned new_parsing_automaton 196608 = Some q /\ pa_so_far q = [196608]) /\
   from_str [196608] = [65533] /\ from_char 1114111 = [65533] /\
   parse_smt_literal [196608] = Some [65533].
 Proof.
